@@ -547,6 +547,74 @@ def check_consume(ctx):
                   sample='if %s > 0' % ov)
 
 
+def check_size_counts(ctx):
+    """the size filter compares token COUNTS: every size it posts, probes with or bounds is len(<tokenizer>.tokenize(x))
+    of the value itself - the same measure on the index side and the probe side (a count of distinct tokens on one
+    side only files a value with repeated tokens under the wrong size)"""
+    repo = ctx.repo
+    spath, ipath, icls = FILTERS['SizeFilter']
+    funcs = [repo.fn(ipath, icls + '.build'), repo.fn(spath, 'SizeFilter.filter_pair'), repo.fn(spath, '_filter_tables_split')]
+    n = 0
+    for f in funcs:
+        view = view_of(f)
+        for c in repo.calls_in(f):
+            if not (isinstance(c.func, ast.Name) and c.func.id == 'len' and len(c.args) == 1):
+                continue
+            st = view.stmt_of(c)
+            ax = view.expand(c.args[0], st)
+            toks = [x for x in ast.walk(ax) if isinstance(x, ast.Call) and isinstance(x.func, ast.Attribute) and x.func.attr == 'tokenize']
+            if not toks:
+                continue
+            n += 1
+            ok = ax is toks[0] or U(ax) == U(toks[0])
+            ctx.check('R-CAND/size-count', f, 'len(%s)' % U(c.args[0])[:40], ok,
+                      'a size is taken as `len(%s)`, not as the number of tokens the tokenizer returned: the index side and the '
+                      'probe side of the size filter no longer measure the same thing' % U(ax)[:80], c,
+                      sample='len(tokenize(value))')
+    ctx.floor('R-CAND/size-count', n, 4, 'token counts of the size filter')
+
+
+def check_early_exits(ctx):
+    """find_candidates may give up before the probe loop only for a reason that provably leaves no candidate: the index
+    is empty, the probe has no tokens, (OverlapFilter) the probe has fewer tokens than the required overlap,
+    (SizeFilter) the size window is empty. Any other early return loses candidates for some operator or input."""
+    repo = ctx.repo
+    n = 0
+    for cls, (path, _, _) in sorted(FILTERS.items()):
+        try:
+            f = repo.fn(path, cls + '.find_candidates')
+        except AnalysisError:
+            continue
+        if len(f.params) < 3:
+            raise AnalysisError('%s: find_candidates(self, probe, index) expected' % f.where)
+        probe, index = f.params[1], f.params[2]
+        allowed = ['not %s.index' % index, 'len(%s.index) == 0' % index]
+        if cls != 'SizeFilter':
+            allowed += ['not %s' % probe, 'len(%s) == 0' % probe]
+        if cls == 'OverlapFilter':
+            allowed += ['len(%s) < self.overlap_size' % probe]
+        if cls == 'SizeFilter':
+            allowed += ['size_lower_bound > size_upper_bound', 'size_lower_bound > %s' % probe, 'size_upper_bound < %s' % probe]
+        ref = f_or(*[to_formula(parse_expr(a)) for a in allowed])
+        conds = Conds(f.node, None)
+        rets = [x for x in walk_own(f.node) if isinstance(x, ast.Return)]
+        final = f.node.body[-1] if f.node.body and isinstance(f.node.body[-1], ast.Return) else None
+        if final is None:
+            raise AnalysisError('%s: find_candidates does not end in a return' % f.where)
+        for r in rets:
+            if r is final:
+                continue
+            n += 1
+            c = conds.of(r)
+            w = Universe(int_atoms=lambda a: True).implies(c, ref)
+            ctx.check('R-CAND/early-exit', f, 'return under %s' % show(c)[:60], w is None,
+                      'find_candidates gives up under `%s` before probing the index; that is only safe when the index or the '
+                      'probe is empty%s' % (show(c)[:120], ' or the probe has fewer tokens than overlap_size (for every '
+                                            'operator the overlap must reach overlap_size)' if cls == 'OverlapFilter' else ''),
+                      r, sample='early return under %s' % show(c)[:80])
+    ctx.floor('R-CAND/early-exit', n, 4, 'early returns of find_candidates')
+
+
 def check_probe_side(ctx):
     """every worker probes the index built over the LEFT table with the tokens (or token count) of the current RIGHT row"""
     from ..side import expr_side, sides
@@ -579,10 +647,14 @@ def check_probe_side(ctx):
     ctx.floor('R-CAND/probe-side', n, 7, 'find_candidates call sites')
 
 
-def run(ctx, slices=True, unique=True, provenance=True, window=True, prune=True, consume=True, probe=True):
+def run(ctx, slices=True, unique=True, provenance=True, window=True, prune=True, consume=True, probe=True, early=True, sizes=False):
     ctx.group('R-CAND')
     if probe:
         check_probe_side(ctx)
+    if early:
+        check_early_exits(ctx)
+    if sizes:
+        check_size_counts(ctx)
     if slices:
         check_slices(ctx)
     if unique:
